@@ -142,7 +142,7 @@ def process_chunk(args: Tuple[List[Dict[str, Any]], int, int]) -> Dict[str, Any]
     reqs, resps = codec.build(recs)
     fails: List[Tuple[str, str, Dict[str, Any]]] = []
     div: List[Tuple[str, Dict[str, Any]]] = []
-    st = {"cases": 0, "encodes": 0, "decodes": 0, "real_ok": 0, "spec_ok": 0, "overlaps": 0, "prefix_decodes": 0,
+    st = {"second_requests": 0, "cases": 0, "encodes": 0, "decodes": 0, "real_ok": 0, "spec_ok": 0, "overlaps": 0, "prefix_decodes": 0,
           "mutation_decodes": 0, "reencodes": 0, "truncated_flags": 0, "static_lengths": 0}
 
     def fail(prop: str, clause: str, rec: Dict[str, Any], entry: str, detail: Dict[str, Any]) -> None:
@@ -169,6 +169,7 @@ def process_chunk(args: Tuple[List[Dict[str, Any]], int, int]) -> Dict[str, Any]
             any(p["dop"].get("k") == "mux" and p["dop"]["kbp"] > p["dop"]["bp"] for p in ps)
         for (entry, obj, rq) in entries:
             results: Dict[str, Dict[str, Any]] = {}
+            second_request_done = False
             static = obj.get_static_bit_length()
             prefix = bytes(obj.coded_const_prefix(request_prefix=rq or b""))
             prefix0 = bytes(obj.coded_const_prefix())     # without knowing the request
@@ -200,6 +201,16 @@ def process_chunk(args: Tuple[List[Dict[str, Any]], int, int]) -> Dict[str, Any]
                         fail("C08", "const_prefix", rec, entry, {**base, "prefix": prefix.hex()})
                     if not enc["overlap"] and not pdu.startswith(prefix0):
                         fail("C08", "const_prefix_without_request", rec, entry, {**base, "prefix": prefix0.hex()})
+                    if rq and not enc["overlap"] and not second_request_done:
+                        # the same response object answering another request: the prefix reported for that request
+                        second_request_done = True
+                        rq2 = bytes((b + 1) % 256 for b in rq)
+                        prefix2 = bytes(obj.coded_const_prefix(request_prefix=rq2))
+                        enc2 = codec.real_encode(obj, vals, rq2)
+                        st["second_requests"] += 1
+                        if enc2["pdu"] is not None and not enc2["overlap"] and not enc2["pdu"].startswith(prefix2):
+                            fail("C08", "const_prefix", rec, entry, {**base, "prefix": prefix2.hex(), "second_request": rq2.hex(),
+                                                                     "real_pdu": enc2["pdu"].hex()})
                     # ---- C01: decode(encode(v)) = v, whole PDU consumed (objects that really overlap cannot come back: exempt
                     # when the reference agrees that they overlap, not merely because the encoder warned)
                     if not (enc["overlap"] and (c["ovl"] or c["err"])):
